@@ -32,7 +32,7 @@ def main():
     ids = [a for a in args if not a.startswith('--') and a not in (tier,) + tuple([','.join(extra)])]
     sdir = os.path.join(V, 'seeded')
     if not ids:
-        ids = sorted(d for d in os.listdir(sdir) if os.path.isdir(os.path.join(sdir, d)))
+        ids = sorted(d for d in os.listdir(sdir) if os.path.isdir(os.path.join(sdir, d)) and not d.startswith('_'))
     respath = os.path.join(sdir, 'RESULTS.json')
     results = json.load(open(respath)) if os.path.exists(respath) else {}
     for sid in ids:
